@@ -43,15 +43,19 @@ SpellNum(dec, sty) ==
         Sci(lower, plus) == SubSeq(D, 1, 1) \o (IF n > 1 THEN <<DOT>> \o SubSeq(D, 2, n) ELSE <<>>)
                             \o <<IF lower THEN 101 ELSE 69>> \o SignedExp(ex - 1, plus)
         IntMant == Under3(D) \o <<69>> \o SignedExp(ex - n, TRUE)
+        \* digits := digit (digit | "_")* : two separators in a row, a separator ending a digit run (also in the exponent)
+        OddU    == (IF n = 1 THEN D \o <<USC>> ELSE SubSeq(D, 1, 1) \o <<USC, USC>> \o SubSeq(D, 2, n) \o <<USC>>)
+                   \o <<101>> \o SignedExp(ex - n, FALSE) \o <<USC>>
         Pos == IF ex >= n THEN D \o Zeros(ex - n) \o (IF sty.num = 4 THEN <<DOT, 48>> ELSE <<>>)
                ELSE IF ex > 0 THEN SubSeq(D, 1, ex) \o <<DOT>> \o SubSeq(D, ex + 1, n)
                ELSE <<48, DOT>> \o Zeros(0 - ex) \o D
         posOk == ex <= 22 /\ ex >= -8
     IN IF n = 0 THEN sg \o (CASE sty.num = 1 -> <<48>> [] sty.num = 2 -> <<48, DOT, 48>>
-                              [] sty.num = 3 -> <<48, 101, 48>> [] OTHER -> <<48, DOT, 48, 48>>)
+                              [] sty.num = 3 -> <<48, 101, 48>> [] sty.num = 5 -> <<48, USC, USC, 48, USC>> [] OTHER -> <<48, DOT, 48, 48>>)
        ELSE sg \o (CASE sty.num = 1 -> (IF posOk THEN Pos ELSE Sci(TRUE, FALSE))
                      [] sty.num = 2 -> Sci(TRUE, FALSE)
                      [] sty.num = 3 -> IntMant
+                     [] sty.num = 5 -> OddU
                      [] OTHER -> (IF posOk THEN Pos ELSE Sci(FALSE, TRUE)))
 
 (***************************************************************************)
@@ -173,6 +177,6 @@ DocDenotes(grids, sty) == [i \in 1..Len(grids) |-> Denotes(grids[i], sty)]
 
 DefaultStyle == [num |-> 1, esc |-> 1, frac |-> 1, dt |-> 1, coord |-> 1, sep |-> 1, nl |-> 1, mark |-> 1,
                  list |-> 1, empty |-> 1, gap |-> 1, fin |-> 1]
-StyleRanges == [num |-> 4, esc |-> 3, frac |-> 3, dt |-> 5, coord |-> 3, sep |-> 3, nl |-> 2, mark |-> 2,
+StyleRanges == [num |-> 5, esc |-> 3, frac |-> 3, dt |-> 5, coord |-> 3, sep |-> 3, nl |-> 2, mark |-> 2,
                 list |-> 4, empty |-> 2, gap |-> 3, fin |-> 2]
 =============================================================================
